@@ -1,7 +1,8 @@
 //! syscall family (C17): harness side and generator side. The reference-model side lives in `model.rs`.
 use crate::dsl::*;
 use crate::gen::{GenOps, Rng};
-use crate::harness::{interp, PlainParams, H};
+use crate::harness::{interp, interp_basic, PlainParams, TickProbe, H};
+use bevy::ecs::world::DeferredWorld;
 use crate::obs::{log, Ev};
 use bevy::prelude::*;
 use bevy_cobweb::prelude::*;
@@ -24,6 +25,11 @@ pub fn state_id(kind: SysKind, key: u8, cmd: bool) -> u8
         SysKind::Spawned => ST_SPAWNED + key,
     }
 }
+
+thread_local! { static CALLEE_DW: std::cell::Cell<[bool; 3]> = const { std::cell::Cell::new([false; 3]) }; }
+/// Which callee keys are written against a `DeferredWorld` in the program being run on this thread.
+pub fn set_callee_dw(v: [bool; 3]) { CALLEE_DW.with(|c| c.set(v)); }
+pub fn is_dw(key: u8) -> bool { CALLEE_DW.with(|c| c.get()[(key % NKEYS) as usize]) }
 
 pub fn pack(state: u8, value: u32) -> u32 { ((state as u32) << 24) | (value & 0xFFFF) }
 
@@ -50,12 +56,42 @@ fn callee_cmd<const K: u8>(In(input): In<u32>, mut p: PlainParams, mut n: Local<
 fn callee_ps<const K: u8>(In(input): In<u32>, mut ps: ParamSet<(PlainParams,)>, mut n: Local<u32>) -> u32 { let mut p = ps.p0(); callee_body::<K>(input, &mut p, &mut n) }
 fn callee_cmd_ps<const K: u8>(In(input): In<u32>, mut ps: ParamSet<(PlainParams,)>, mut n: Local<u32>) { let mut p = ps.p0(); callee_body::<K>(input, &mut p, &mut n); }
 
+/// The callee written against a `DeferredWorld`: everything it queues goes on the world's own command queue.
+fn callee_body_dw<const K: u8>(input: u32, chg: bool, dw: &mut DeferredWorld, n: &mut u32) -> u32
+{
+    *n += 1;
+    let state = (input >> 24) as u8;
+    let value = input & 0xFFFF;
+    let prog = dw.resource::<H>().prog.clone();
+    let mut h = std::mem::replace(&mut *dw.resource_mut::<H>(), H::for_resolve(prog.clone(), Vec::new()));
+    h.callee_seq += 1;
+    let seq = h.callee_seq;
+    log(Ev::SysBody { key: K, n: *n, input, chg });
+    h.callee_calls[K as usize % 3] += 1;
+    let call = h.callee_calls[K as usize % 3];
+    let ops = prog.callee_script(K, call);
+    for (idx, op) in ops.iter().enumerate()
+    {
+        let u = uid(CALLEE_BASE + state, seq, idx);
+        let mut c = dw.commands();
+        c.queue(move |_: &mut World| log(Ev::Apply(u)));
+        let _ = interp_basic(op, u, &mut c, &mut h);
+        c.queue(move |_: &mut World| log(Ev::ApplyEnd(u)));
+    }
+    *dw.resource_mut::<H>() = h;
+    log(Ev::SysBodyEnd { key: K, n: *n });
+    value * 1000 + *n
+}
+
+fn callee_dw<const K: u8>(In(input): In<u32>, mut ps: ParamSet<(Res<TickProbe>, DeferredWorld)>, mut n: Local<u32>) -> u32 { let chg = ps.p0().is_changed(); let mut dw = ps.p1(); callee_body_dw::<K>(input, chg, &mut dw, &mut n) }
+fn callee_cmd_dw<const K: u8>(In(input): In<u32>, mut ps: ParamSet<(Res<TickProbe>, DeferredWorld)>, mut n: Local<u32>) { let chg = ps.p0().is_changed(); let mut dw = ps.p1(); callee_body_dw::<K>(input, chg, &mut dw, &mut n); }
+
 fn sysname_of<S: 'static>(_: &S, name: u8) -> SysName { SysName::new::<S>(name) }
 
-macro_rules! by_key { ($key:expr, |$f:ident| $body:expr) => { match $key % NKEYS { 0 => { let $f = callee::<0>; $body } 1 => { let $f = callee::<1>; $body } _ => { let $f = callee::<2>; $body } } }; }
-macro_rules! by_key_ps { ($key:expr, |$f:ident| $body:expr) => { match $key % NKEYS { 0 => { let $f = callee_ps::<0>; $body } 1 => { let $f = callee_ps::<1>; $body } _ => { let $f = callee_ps::<2>; $body } } }; }
-macro_rules! by_key_cmd_ps { ($key:expr, |$f:ident| $body:expr) => { match $key % NKEYS { 0 => { let $f = callee_cmd_ps::<0>; $body } 1 => { let $f = callee_cmd_ps::<1>; $body } _ => { let $f = callee_cmd_ps::<2>; $body } } }; }
-macro_rules! by_key_cmd { ($key:expr, |$f:ident| $body:expr) => { match $key % NKEYS { 0 => { let $f = callee_cmd::<0>; $body } 1 => { let $f = callee_cmd::<1>; $body } _ => { let $f = callee_cmd::<2>; $body } } }; }
+macro_rules! by_key { ($key:expr, |$f:ident| $body:expr) => { match ($key % NKEYS, crate::sysfam::is_dw($key)) { (0, false) => { let $f = callee::<0>; $body } (1, false) => { let $f = callee::<1>; $body } (_, false) => { let $f = callee::<2>; $body } (0, true) => { let $f = callee_dw::<0>; $body } (1, true) => { let $f = callee_dw::<1>; $body } (_, true) => { let $f = callee_dw::<2>; $body } } }; }
+macro_rules! by_key_ps { ($key:expr, |$f:ident| $body:expr) => { match ($key % NKEYS, crate::sysfam::is_dw($key)) { (0, false) => { let $f = callee_ps::<0>; $body } (1, false) => { let $f = callee_ps::<1>; $body } (_, false) => { let $f = callee_ps::<2>; $body } (0, true) => { let $f = callee_dw::<0>; $body } (1, true) => { let $f = callee_dw::<1>; $body } (_, true) => { let $f = callee_dw::<2>; $body } } }; }
+macro_rules! by_key_cmd_ps { ($key:expr, |$f:ident| $body:expr) => { match ($key % NKEYS, crate::sysfam::is_dw($key)) { (0, false) => { let $f = callee_cmd_ps::<0>; $body } (1, false) => { let $f = callee_cmd_ps::<1>; $body } (_, false) => { let $f = callee_cmd_ps::<2>; $body } (0, true) => { let $f = callee_cmd_dw::<0>; $body } (1, true) => { let $f = callee_cmd_dw::<1>; $body } (_, true) => { let $f = callee_cmd_dw::<2>; $body } } }; }
+macro_rules! by_key_cmd { ($key:expr, |$f:ident| $body:expr) => { match ($key % NKEYS, crate::sysfam::is_dw($key)) { (0, false) => { let $f = callee_cmd::<0>; $body } (1, false) => { let $f = callee_cmd::<1>; $body } (_, false) => { let $f = callee_cmd::<2>; $body } (0, true) => { let $f = callee_cmd_dw::<0>; $body } (1, true) => { let $f = callee_cmd_dw::<1>; $body } (_, true) => { let $f = callee_cmd_dw::<2>; $body } } }; }
 
 pub fn world_syscall(world: &mut World, kind: SysKind, key: u8, value: u32, u: u32)
 {
@@ -99,7 +135,7 @@ pub fn spawn_sys(world: &mut World, k: u8, key: u8)
     if world.resource::<H>().sys[k].is_some() { return; }
     // slots 1 and 3 hold the `ParamSet` form of the callee
     // (slot 0 alternates between `spawn_system`, `spawn_system_from` and `Commands::spawn_system` by function key)
-    let id = match k { 0 => match key % NKEYS { 0 => spawn_system(world, callee::<0>), 1 => spawn_system_from(world, CallbackSystem::new(callee::<1>)), _ => { let id = world.commands().spawn_system(callee::<2>); world.flush(); id } }, 1 => by_key_ps!(key, |f| spawn_system(world, f)), 2 => by_key_cmd!(key, |f| spawn_system(world, f)), _ => by_key_cmd_ps!(key, |f| spawn_system(world, f)) };
+    let id = match k { 0 if is_dw(key) => by_key!(key, |f| spawn_system(world, f)), 0 => match key % NKEYS { 0 => spawn_system(world, callee::<0>), 1 => spawn_system_from(world, CallbackSystem::new(callee::<1>)), _ => { let id = world.commands().spawn_system(callee::<2>); world.flush(); id } }, 1 => by_key_ps!(key, |f| spawn_system(world, f)), 2 => by_key_cmd!(key, |f| spawn_system(world, f)), _ => by_key_cmd_ps!(key, |f| spawn_system(world, f)) };
     let mut h = world.resource_mut::<H>();
     h.sys[k] = Some(id);
     h.known.push(id.entity());
